@@ -31,8 +31,8 @@ type Case struct {
 }
 
 var (
-	optsPlain  = sg.Opts{Special: true}
-	optsLocals = sg.Opts{Special: true, Locals: true}
+	optsPlain  = sg.Opts{Special: true, TextBlocks: true, YAMLStyles: true}
+	optsLocals = sg.Opts{Special: true, TextBlocks: true, YAMLStyles: true, Locals: true}
 )
 
 // written is the description on the shared in-memory filesystem.
@@ -42,6 +42,7 @@ type written struct {
 	hcl, yml string // file names
 	hclText  string
 	ymlText  string
+	ymlStats sg.YAMLStyleStats // which values of x.yaml are written by hand (block scalars, multi-line plain / quoted scalars)
 }
 
 // All cases of a process use ONE directory and the same file names (x.hcl, x.yaml, the data files): every case is
@@ -62,7 +63,8 @@ func write(m sg.Model) (*written, error) {
 		}
 	}
 	w.hclText = string(sg.RenderHCL(w.m))
-	w.ymlText = string(sg.RenderYAML(w.m))
+	yml, stats := sg.RenderYAMLStyled(w.m)
+	w.ymlText, w.ymlStats = string(yml), stats
 	w.hcl, w.yml = w.dir+"/x.hcl", w.dir+"/x.yaml"
 	if err := afero.WriteFile(fs, w.hcl, []byte(w.hclText), 0o644); err != nil {
 		return nil, err
@@ -144,6 +146,7 @@ func checkWith(c Case, o *vf.Obs, r *vf.Run) (err error) {
 		return err
 	}
 	defer w.remove()
+	classifyYAMLStyles(w, o)
 	defer func() {
 		if err != nil {
 			o.Note("x.hcl", w.hclText)
@@ -307,6 +310,14 @@ func classify(m sg.Model, obs *vf.Obs) {
 		o.Class("hcl_block_order_permuted")
 	}
 	o.ClassIf(m.Layout.YAMLEmptySections, "yaml_empty_sections")
+	m.WalkStrings(func(path, s string) {
+		if strings.HasSuffix(path, ".key") {
+			return
+		}
+		o.ClassIf(strings.HasPrefix(s, "\t") || strings.Contains(s, "\n\t"), "str_line_starts_with_tab")
+		o.ClassIf(strings.Contains(s, "\r"), "str_cr")
+		o.ClassIf(strings.HasSuffix(s, "\n\n"), "str_several_trailing_newlines")
+	})
 
 	// HCL-only constructions
 	if len(m.Locals) > 0 {
@@ -357,6 +368,54 @@ func classify(m sg.Model, obs *vf.Obs) {
 
 	if (present > 0 && absent > 0) || special || len(m.Exprs) > 0 || len(m.Locals) > 0 {
 		obs.NonTrivial()
+	}
+}
+
+// classifyYAMLStyles labels the case by the hand-written scalars of x.yaml that passed scengen's round-trip
+// self-check (yaml.v2 reads them back as the intended string) and by those that fell back to the Marshal form.
+func classifyYAMLStyles(w *written, obs *vf.Obs) {
+	o := &classSet{seen: map[string]bool{}, o: obs}
+	anyLine := func(s string, f func(l string) bool) bool {
+		for _, l := range strings.Split(s, "\n") {
+			if f(l) {
+				return true
+			}
+		}
+		return false
+	}
+	for _, a := range w.ymlStats.Applied {
+		o.Class("yaml_hand_scalar")
+		multiline := strings.Contains(a.Text, "\n")
+		switch a.Style.Style {
+		case sg.StyleLiteral, sg.StyleFolded:
+			o.Class("yaml_" + a.Style.Style)
+			header, _, _ := strings.Cut(a.Text, "\n")
+			o.ClassIf(strings.ContainsAny(header, "123456789"), "yaml_block_indent_indicator")
+			o.ClassIf(strings.Contains(header, "+"), "yaml_block_keep")
+			o.ClassIf(strings.Contains(header, "-"), "yaml_block_strip")
+			o.ClassIf(strings.HasPrefix(a.Value, "\t"), "yaml_block_first_line_starts_with_tab")
+			o.ClassIf(anyLine(a.Value, func(l string) bool { return strings.HasPrefix(l, "\t") }), "yaml_block_line_starts_with_tab")
+			o.ClassIf(anyLine(a.Value, func(l string) bool { return strings.HasPrefix(l, " ") }), "yaml_block_line_starts_with_space")
+			o.ClassIf(anyLine(a.Value, func(l string) bool { return strings.HasSuffix(l, " ") || strings.HasSuffix(l, "\t") }), "yaml_block_trailing_blanks")
+			o.ClassIf(strings.Contains(a.Value, "#"), "yaml_block_hash")
+			o.ClassIf(strings.Contains(a.Value, ": "), "yaml_block_colon_space")
+			o.ClassIf(strings.HasSuffix(a.Value, "\n\n"), "yaml_block_several_trailing_newlines")
+			o.ClassIf(a.Style.Style == sg.StyleFolded && strings.Contains(strings.TrimRight(a.Value, "\n"), "\n"), "yaml_folded_inner_newline")
+			o.ClassIf(!strings.HasSuffix(a.Path, ".body") && !strings.HasSuffix(a.Path, ".payload"), "yaml_block_not_body_or_payload")
+		case sg.StylePlain:
+			o.ClassIf(multiline, "yaml_plain_multiline")
+		case sg.StyleSingle:
+			o.Class("yaml_single_quoted")
+			o.ClassIf(multiline, "yaml_single_quoted_multiline")
+		case sg.StyleDouble:
+			o.Class("yaml_double_quoted_by_hand")
+			o.ClassIf(multiline, "yaml_double_quoted_multiline")
+			o.ClassIf(strings.Contains(a.Text, "\t"), "yaml_double_quoted_literal_tab")
+		}
+	}
+	for _, p := range w.ymlStats.Fallback {
+		o.Class("yaml_style_fallback")
+		o.Class("yaml_style_fallback_" + w.m.Layout.YAMLStyles[p].Style)
 	}
 }
 
